@@ -1,5 +1,5 @@
 import Eru.Misc.ProofsChunks
-import Eru.Misc.Sender
+import Eru.Misc.ProofsSender
 /-
 C29 — File transfers deliver identical content and always finish.
 Chunking: Eru/Misc/Chunks.lean (rpc/transform.go:toSendLargeFileChunks);
@@ -44,5 +44,44 @@ theorem chunks_zero_size_diverges {α : Type} (c : List α) : toChunksO 0 c = .d
 example : toChunks 2 (by decide) [1, 2, 3, 4, 5] = [[1, 2], [3, 4], [5]] := by
   simp [toChunks]
 example : toChunks 2 (by decide) ([] : List Nat) = [[]] := by simp [toChunks]
+
+/-! ### the pipeline always finishes -/
+section Pipeline
+open Eru.Misc.Sender
+
+/-- the states a `SendLargeFile` call can be in: `n = behs.length` (deduplicated) targets with
+arbitrary scripted behaviours (missing workload, engine that reads everything, rejects at once,
+aborts after k bytes, returns early), any chunk list (empty file = one empty chunk), any
+interleaving of the goroutines -/
+def Reachable (behs : List Beh) (chunks : List (List Byte)) (s : State) : Prop :=
+  Reach behs (initState behs.length chunks) s
+
+/-- **No reachable deadlock.** As long as the result channel is not closed, some goroutine of the
+call can take a step — for every set of targets, every engine behaviour and every schedule. -/
+theorem no_reachable_deadlock (behs : List Beh) (chunks : List (List Byte)) (s : State)
+    (hr : Reachable behs chunks s) (hf : final s = false) :
+    ∃ a s', step behs s a = some s' :=
+  no_deadlock behs s (hr.inv (GInv.init behs chunks)) hf
+
+/-- **Every step counts.** Each step strictly decreases a natural-number measure, so no schedule
+can run forever: at most `State.mu` steps remain in any state. -/
+theorem every_run_is_finite (behs : List Beh) (s s' : State) (a : Action) (h : step behs s a = some s') :
+    s'.mu < s.mu := step_decreases behs s s' a h
+
+/-- **The call always finishes.** From every reachable state, every maximal continuation is finite
+(previous theorem) and cannot stop before the result channel is closed (no deadlock); in
+particular a final state is reachable from every reachable state. -/
+theorem always_finishes (behs : List Beh) (chunks : List (List Byte)) (s : State)
+    (hr : Reachable behs chunks s) : ∃ s', Reach behs s s' ∧ final s' = true :=
+  finishes_from behs s.mu s (hr.inv (GInv.init behs chunks)) (Nat.le_refl _)
+
+/-- non-trivial instance: target 0 reads everything, target 1 is missing, target 2's engine
+rejects the copy at once; 14 chunks (more than the buffer of 10 plus the one in flight) -/
+example : let behs : List Beh := [⟨false, none, false⟩, ⟨true, none, false⟩, ⟨false, some 0, true⟩]
+    let s := run behs 400 (initState 3 (List.replicate 14 [1, 2]))
+    final s = true ∧ s.ts.map (·.results) = [[false], [true], [true]] ∧ s.ts.map (·.got.length) = [28, 0, 0] := by
+  decide
+
+end Pipeline
 
 end Eru.Props.C29
